@@ -91,7 +91,7 @@ def gen(tier, rng):
         if p3 != prog:
             cases.append(Case(sess.session(run_calls(p3, inputs)), sig=key + "\n#split:\n" + "\n".join(p3), tag="split", meta=("same", pi, m3)))
         # (c) another numbering of the same labelled layout
-        start, step = rng.choice([(0, 1), (0, 10), (1, 1), (100, 100), (1000, 7), (5, 5), (30000, 3)])
+        start, step = rng.choice([(0, 1), (0, 10), (1, 1), (100, 100), (1000, 7), (5, 5), (30000, 3), (65529 - (len(prog) - 1), 1)])
         p4, _ = P.render(start=start, step=step)
         m4 = {int(a.split(" ")[0]): int(b.split(" ")[0]) for a, b in zip(p4, prog)}
         cases.append(Case(sess.session(run_calls(p4, inputs)), sig=key + "\n#renumbered from %d step %d" % (start, step), tag="renumber",
@@ -138,6 +138,23 @@ def gen(tier, rng):
             cases.append(Case(sess.session(calls), sig="\n".join(base) + "\n30 REM tail\n#entered by: " + entry, tag="direct-entry",
                               meta=("dsame", 100000 + pi * 10 + len(entry), None)))
         pi += 1
+    # (c3) direct statements that refer to a line of the stored program by number, with that line numbered low, high, and with
+    # the highest legal number (the marker of the direct code sorts right behind it)
+    DIRECT_REFS = ['GOSUB {d}:PRINT "BACK"', "RESTORE {d}:READ A:PRINT A", "RUN {d}", "GOTO {d}", 'ON 1 GOSUB {d}:PRINT "B2"',
+                   "IF 1 THEN {d}", "RESTORE:READ A:RESTORE {d}:READ B:PRINT A;B", "RUN", "LIST {d}"]
+    for ci, tight in enumerate((False, True)):
+        for di, tmpl in enumerate(DIRECT_REFS):
+            for fi, first in enumerate((["RUN"], [])):
+                key = 900000 + ci * 100 + di * 10 + fi
+                for d in (40, 65528, 65529):
+                    c = d - 1 if tight else 30
+                    prog = ["10 DATA 1", '20 PRINT "MAIN"', "%d END" % c, '%d DATA 2:PRINT "SUB";:Q9=Q9+1:IF Q9<3 THEN RETURN ELSE END' % d]
+                    direct = tmpl.format(d=d)
+                    calls = ["R5000"] + [sess.E(l) for l in prog]
+                    for x in first + [direct]:
+                        calls += [sess.E(x), "R5000"]
+                    meta = None if "LIST" in tmpl else (("base", key, None) if d == 40 else ("same", key, {10: 10, 20: 20, c: (39 if tight else 30), d: 40}))
+                    cases.append(Case(sess.session(calls), sig="\n".join(prog) + "\n#then: " + "; ".join(first + [direct]), tag="direct-ref", meta=meta))
     # (d)/(e) direct statement lists
     for di in range(150 if tier == "quick" else 5000):
         P = gen_prog.Prog(rng, {"tron": False, "input": False})
